@@ -1,179 +1,497 @@
 package main
 
-// C12: RunnerManager.Run (K1, K2).
+// C12: RunnerManager.Run / RunnerManager.Add (K0, K1, K2).
 
 import (
+	"fmt"
 	"go/token"
+	"go/types"
 	"strings"
 
 	"golang.org/x/tools/go/ssa"
 )
 
-// c12Recvs lists the plain receives of fn on channels for which isCh holds;
-// selects receiving on such a channel make the count undecidable.
-func c12Recvs(x *c12, fn *ssa.Function, isCh func(ssa.Value) bool) (out []*ssa.UnOp, ok bool) {
-	ok = true
-	allInstrs(fn, func(in ssa.Instruction) {
-		switch v := in.(type) {
-		case *ssa.UnOp:
-			if v.Op == token.ARROW && isCh(v.X) {
-				if v.CommaOk {
-					ok = false
-				}
-				out = append(out, v)
+// spawnInfo caches the worker summary per go-site callee.
+type c12SpawnCache map[*ssa.Function]*c12WorkerSum
+
+// workerOf resolves and explores the body of the go statement g in state st.
+func (x *c12) workerOf(st *xState, g *ssa.Go, cache c12SpawnCache, classify func(fn *ssa.Function) (c12WorkerKind, FieldID, bool)) *c12WorkerSum {
+	fn, _ := x.calleeFn(st, g)
+	if fn == nil || len(fn.Blocks) == 0 {
+		x.undecide("%s starts a goroutine whose body is not statically known (%s)", FuncName(x.p, st.x.frames0().fn), x.pos(g))
+		return nil
+	}
+	if s, ok := cache[fn]; ok {
+		return s
+	}
+	kind, field, ok := classify(fn)
+	if !ok {
+		cache[fn] = nil
+		return nil
+	}
+	bind := c12BindOf(g, fn)
+	snap := st.clone()
+	oracle := func(v ssa.Value) xVal { return evalSpawnerSide(snap, v, g) }
+	s := x.exploreWorker(fn, bind, kind, field, oracle)
+	cache[fn] = s
+	return s
+}
+
+// frames0 returns the root frame of the exploration.
+func (e *xplorer) frames0() *xFrame {
+	for _, f := range e.frames {
+		if f.parent == nil {
+			return f
+		}
+	}
+	return nil
+}
+
+// joinStore: the store `*addr = val` puts val into memory (a varargs array or
+// a slice) that flows — also through helpers' results and parameters — into
+// errors.Join.
+func (x *c12) joinStore(s *ssa.Store) bool {
+	base := c12StoreBase(s)
+	return base != nil && x.reachesJoin(base)
+}
+
+// reachesJoin: v flows (slice, append, phi, local cell, result of a
+// same-package function to its callers, argument to a same-package callee)
+// into the variadic argument of errors.Join.
+func (x *c12) reachesJoin(v ssa.Value) bool {
+	seen := map[ssa.Value]bool{}
+	found := false
+	var walk func(v ssa.Value)
+	callersOf := func(fn *ssa.Function) []*ssa.Call {
+		var out []*ssa.Call
+		for _, f := range x.p.Funcs {
+			if f.Pkg != fn.Pkg && !(f.Parent() != nil) {
+				continue
 			}
-		case *ssa.Select:
-			for _, st := range v.States {
-				if isCh(st.Chan) {
-					ok = false
+			allInstrs(f, func(in ssa.Instruction) {
+				if c, ok := in.(*ssa.Call); ok && staticCallee(c) == fn {
+					out = append(out, c)
+				}
+			})
+		}
+		return out
+	}
+	walk = func(v ssa.Value) {
+		if v == nil || seen[v] || found {
+			return
+		}
+		seen[v] = true
+		for _, r := range refs(v) {
+			switch t := r.(type) {
+			case *ssa.Slice:
+				if t.X == v {
+					walk(t)
+				}
+			case *ssa.Phi:
+				walk(t)
+			case *ssa.ChangeType:
+				walk(t)
+			case *ssa.Call:
+				if builtinName(t) == "append" {
+					walk(t)
+				} else if callIs(t, "errors", "", "Join") {
+					found = true
+				} else if callee := staticCallee(t); callee != nil && x.inPkg(callee) && len(callee.Blocks) > 0 {
+					for i, a := range t.Call.Args {
+						if a == v && i < len(callee.Params) {
+							walk(callee.Params[i])
+						}
+					}
+				}
+			case *ssa.Store:
+				if t.Val == v {
+					if cell := c12CellOf(t.Addr); cell != nil {
+						c12CellLoads(cell, walk)
+					}
+				}
+			case *ssa.Return:
+				fn := t.Parent()
+				for i, res := range t.Results {
+					if res != v {
+						continue
+					}
+					for _, c := range callersOf(fn) {
+						if len(t.Results) == 1 {
+							walk(c)
+						} else {
+							for _, rr := range refs(c) {
+								if ex, ok := rr.(*ssa.Extract); ok && ex.Index == i {
+									walk(ex)
+								}
+							}
+						}
+					}
 				}
 			}
 		}
-	})
-	return
+	}
+	walk(v)
+	return found
+}
+
+// joinNilFact: the branch establishes that the errors.Join result is nil
+// (1), non-nil (2), or says nothing about it (0).
+func joinNilFact(cond xVal, truth bool) int {
+	if cond.K != xCmp || (cond.Op != token.EQL && cond.Op != token.NEQ) {
+		return 0
+	}
+	a, b := *cond.X, *cond.Y
+	if !isJoinCall(a) {
+		a, b = b, a
+	}
+	if !isJoinCall(a) || b.K != xNil {
+		return 0
+	}
+	if (cond.Op == token.EQL) == truth {
+		return 1
+	}
+	return 2
+}
+
+func isJoinCall(v xVal) bool {
+	if v.K != xAtom {
+		return false
+	}
+	c, ok := v.V.(*ssa.Call)
+	return ok && callIs(c, "errors", "", "Join")
+}
+
+func (x *c12) checkOnceAdd() {
+	p := x.p
+	// RunnerManager.Add: appends only when running was read unset; the running
+	// branch returns non-nil
+	fn := x.rmAdd
+	construct := FuncName(p, fn) + " rejects after start"
+	x.seen("C12.K0-once", construct, p.Pos(fn.Pos()))
+	const (
+		bUnset = 1 << 0
+		bSet   = 1 << 1
+	)
+	nW := 0
+	cl := &xClient{NoInline: func(f *ssa.Function) bool { return x.anchors[f] && f != fn }}
+	cl.OnBranch = func(st *xState, ifi *ssa.If, cond xVal, truth bool) bool {
+		if x.loadIs(cond, x.rmRunning) {
+			if truth {
+				st.Client |= bSet
+			} else {
+				st.Client |= bUnset
+			}
+		}
+		return true
+	}
+	cl.OnInstr = func(st *xState, in ssa.Instruction, replay bool) bool {
+		if s, ok := in.(*ssa.Store); ok {
+			if fa, ok := s.Addr.(*ssa.FieldAddr); ok && fieldIDOfAddr(fa) == x.rmRunners {
+				nW++
+				if st.Client&bUnset == 0 {
+					x.bad("C12.K0-once", construct, x.pos(in), "the append to the runners at "+x.pos(in)+" can be reached without having read the running flag unset: a runner added after Run started is never started, and Run — whose collection re-reads the number of runners — waits for a result that never comes")
+				}
+			}
+		}
+		return true
+	}
+	cl.OnReturn = func(st *xState, ret *ssa.Return, res []xVal) {
+		if st.Client&bSet != 0 && len(res) == 1 && res[0].K == xNil {
+			x.bad("C12.K0-once", construct, x.pos(ret), "Add returns nil at "+x.pos(ret)+" although it found the manager running (the addition is silently dropped instead of rejected)")
+		}
+	}
+	ex := newXplorer(p, x.ssaPkg, cl)
+	ex.Explore(fn, nil, 0)
+	if nW == 0 {
+		x.undecide("%s no longer stores to the runners (Add restructured)", FuncName(p, fn))
+	}
 }
 
 func (x *c12) checkRunnerRun() {
-	r, p := x.r, x.p
+	p := x.p
 	fn := x.rmRun
 	fname := FuncName(p, fn)
-	ws, ok := x.workers(fn)
-	if !ok || len(ws) == 0 {
-		return // K0 reported the absence
-	}
-	// the cancellable context
-	var wc *ssa.Call
-	nWC := 0
-	allInstrs(fn, func(in ssa.Instruction) {
-		if call, ok := in.(*ssa.Call); ok && callIs(call, "context", "", "WithCancel") {
-			wc = call
-			nWC++
-		}
-	})
-	if nWC > 1 {
-		r.Undecide("%s derives more than one cancellable context", fname)
-		return
-	}
-	var ctxRes, cancelRes ssa.Value
-	if wc != nil {
-		ctxRes, cancelRes = callResult(wc, 0), callResult(wc, 1)
-	}
+	cOnce := fname + " once-guard"
+	cCount := fname + " started==collected"
+	cColl := fname + " collector"
+	cJoin := fname + " returns Join"
+	x.seen("C12.K0-once", cOnce, p.Pos(fn.Pos()))
+	x.seen("C12.K1-count", cCount, p.Pos(fn.Pos()))
+	x.seen("C12.K2-filter", cColl, p.Pos(fn.Pos()))
+	x.seen("C12.K2-filter", cJoin, p.Pos(fn.Pos()))
 
-	// result channel: the single MakeChan of Run the workers send on
-	var ch *ssa.MakeChan
-	chOK := true
-	for _, w := range ws {
-		allInstrs(w.Fn, func(in ssa.Instruction) {
-			if s, ok := in.(*ssa.Send); ok {
-				mk, _ := c12ChanRoot(s.Chan, w.Bind)
-				if mk == nil || mk.Parent() != fn || (ch != nil && mk != ch) {
-					chOK = false
-					return
-				}
-				ch = mk
-			}
-		})
-	}
-	if !chOK {
-		r.Undecide("%s: the runner goroutines send on something other than one channel made in Run", fname)
-		return
-	}
-	if ch == nil {
-		r.Violation("C12.K1-worker", fname+" result channel", p.Pos(fn.Pos()), "no runner goroutine sends a result: Run cannot know when the runners have returned")
-		return
-	}
-	isChW := func(w *c12Worker) func(ssa.Value) bool {
-		return func(v ssa.Value) bool { mk, _ := c12ChanRoot(v, w.Bind); return mk == ch }
-	}
-	isChRun := func(v ssa.Value) bool { mk, _ := c12ChanRoot(v, nil); return mk == ch }
+	cache := c12SpawnCache{}
+	classify := func(f *ssa.Function) (c12WorkerKind, FieldID, bool) { return wkRunner, x.rmRunners, true }
 
-	s1Excludes := true
-	var spawns []*ssa.Go
-	for _, w := range ws {
-		isTask := func(call *ssa.Call) bool {
-			if call.Call.IsInvoke() {
+	const (
+		bOwn     = 1 << 0
+		bLoaded  = 1 << 1 // running.Load()==false seen (Load+Store idiom)
+		bStored  = 1 << 2 // running.Store(true) executed
+		shMask   = 4      // 4 bits: elements started
+		shRecv   = 8      // 3 bits
+		shSpawn  = 11     // 3 bits
+		bEAct    = 1 << 14
+		shENil   = 15
+		shECan   = 17
+		bEApp    = 1 << 19
+		bAnyApp  = 1 << 20
+		bJoinNil = 1 << 21
+	)
+	allExcl := true
+	sawGo, sawTAS, loadStore := false, false, false
+	var resultChan ssa.Value // the MakeChan all workers send on
+	anyRecv := false
+
+	for n := 0; n <= 4; n++ {
+		n := n
+		isE := func(v xVal) bool {
+			if v.K != xAtom {
 				return false
 			}
-			_, ok := c12ElemOfField(call.Call.Value, w.Bind, x.rmRunners)
-			return ok
+			if u, ok := v.V.(*ssa.UnOp); ok && u.Op == token.ARROW {
+				return true
+			}
+			ex, ok := v.V.(*ssa.Extract)
+			if !ok || ex.Index < 2 {
+				return false
+			}
+			_, isSel := ex.Tuple.(*ssa.Select)
+			return isSel
 		}
-		res := c12WorkerFlow(x, w, isTask, isChW(w), cancelRes)
-		if len(res.Tasks) == 0 {
-			r.Undecide("%s: goroutine %s does not call an element of RunnerManager.runners directly", fname, w.Name)
+		verifyE := func(st *xState, where string) {
+			if st.Client&bEAct == 0 {
+				return
+			}
+			nn, cc := int(st.Client>>shENil)&3, int(st.Client>>shECan)&3
+			if st.Client&bEApp != 0 {
+				if !allExcl && !(cc == c12No || nn == c12Yes) {
+					x.bad("C12.K2-filter", cColl, "", "a result that may be context.Canceled is joined into the returned error ("+where+"): neither the goroutine nor the collector excludes it")
+				}
+				return
+			}
+			if nn == c12Yes || cc == c12Yes {
+				return
+			}
+			x.bad("C12.K2-filter", cColl, "", "a collected result that is not known to be nil or context.Canceled does not reach errors.Join ("+where+"): that error is missing from the returned error")
+		}
+		cl := &xClient{Lens: map[FieldID]int{x.rmRunners: n}, NoInline: func(f *ssa.Function) bool { return x.anchors[f] && f != fn }}
+		cl.OnBranch = func(st *xState, ifi *ssa.If, cond xVal, truth bool) bool {
+			if x.tasTried(cond, x.rmRunning) {
+				sawTAS = true
+			}
+			if x.tasWon(cond, truth, x.rmRunning) {
+				st.Client |= bOwn
+			}
+			if x.loadIs(cond, x.rmRunning) && !truth {
+				st.Client |= bLoaded
+			}
+			if joinNilFact(cond, truth) == 1 {
+				st.Client |= bJoinNil
+			}
+			if st.Client&bEAct != 0 {
+				fnn, fc := x.errFacts(st, cond, truth, isE)
+				if fnn != c12Unk || fc != c12Unk {
+					nn, cc := int(st.Client>>shENil)&3, int(st.Client>>shECan)&3
+					n2, c2, ok := c12Refine(nn, cc, fnn, fc)
+					if !ok {
+						return false
+					}
+					st.Client &^= 3<<shENil | 3<<shECan
+					st.Client |= uint64(n2)<<shENil | uint64(c2)<<shECan
+				}
+			}
+			return true
+		}
+		onRecv := func(st *xState, in ssa.Instruction, chv ssa.Value, commaOk bool) bool {
+			ch := st.Eval(chv)
+			if ch.K != xAtom || resultChan == nil || ch.V != resultChan {
+				if _, isMk := ch.V.(*ssa.MakeChan); ch.K == xAtom && isMk && resultChan == nil {
+					// receive before any spawn (n == 0 never gets here legitimately)
+				} else {
+					return true
+				}
+			}
+			if commaOk {
+				x.undecide("%s collects results through a comma-ok receive", fname)
+			}
+			anyRecv = true
+			verifyE(st, "before the next receive at "+x.pos(in))
+			rc := (st.Client >> shRecv) & 7
+			sp := (st.Client >> shSpawn) & 7
+			if rc >= sp {
+				x.bad("C12.K1-count", cCount, x.pos(in), fmt.Sprintf("with %d runners Run receives a result at %s although only %d goroutines were started and %d results already received: it waits forever for a result nobody sends", n, x.pos(in), sp, rc))
+				return false
+			}
+			rc++
+			st.Client = st.Client&^(7<<shRecv) | rc<<shRecv
+			st.Client &^= bEApp | 3<<shENil | 3<<shECan
+			st.Client |= bEAct
+			return true
+		}
+		cl.OnSelect = func(st *xState, sel *ssa.Select, k int) bool {
+			if k >= 0 && k < len(sel.States) && sel.States[k].Dir == types.RecvOnly {
+				return onRecv(st, sel, sel.States[k].Chan, false)
+			}
+			return true
+		}
+		cl.OnInstr = func(st *xState, in ssa.Instruction, replay bool) bool {
+			switch v := in.(type) {
+			case *ssa.Call:
+				if c, ok := x.flagCall(v, x.rmRunning, "Store"); ok && len(c.Call.Args) == 2 && c12IsConstBool(c.Call.Args[1], true) && st.Client&bLoaded != 0 {
+					st.Client |= bStored
+				}
+			case *ssa.Go:
+				sawGo = true
+				owned := st.Client&bOwn != 0
+				if !owned && st.Client&bLoaded != 0 && st.Client&bStored != 0 {
+					owned, loadStore = true, true
+				}
+				if !owned {
+					x.bad("C12.K0-once", cOnce, x.pos(in), "the goroutine started at "+x.pos(in)+" can be reached without this call's own test-and-set of the running flag having succeeded: a second Run would start every runner again")
+				}
+				w := x.workerOf(st, v, cache, classify)
+				if w == nil {
+					return true
+				}
+				if w.Tasks == 0 || w.Unknown != "" {
+					return true
+				}
+				if !w.Excludes {
+					allExcl = false
+				}
+				// which element does this goroutine run?
+				for _, tv := range w.TaskVals {
+					ev := evalSpawnerSide(st, tv, v)
+					if ev.K == xElem && ev.Base != nil && ev.Base.K == xField && ev.Base.Fld == x.rmRunners && ev.Idx != nil && ev.Idx.K == xInt && ev.Idx.I >= 0 && ev.Idx.I < 4 {
+						bit := uint64(1) << (shMask + uint(ev.Idx.I))
+						if st.Client&bit != 0 {
+							x.bad("C12.K1-count", cCount, x.pos(in), fmt.Sprintf("with %d runners, runner %d is started twice (go statement at %s)", n, ev.Idx.I, x.pos(in)))
+						}
+						st.Client |= bit
+					} else {
+						x.undecide("%s: cannot tell which runner the goroutine started at %s runs (%s)", fname, x.pos(in), ev.String())
+					}
+				}
+				// channel
+				for _, c := range w.Chans {
+					ev := evalSpawnerSide(st, c, v)
+					if ev.K != xAtom {
+						x.undecide("%s: the runner goroutines do not report on a channel made in Run", fname)
+						continue
+					}
+					if _, isMk := ev.V.(*ssa.MakeChan); !isMk || (resultChan != nil && resultChan != ev.V) {
+						x.undecide("%s: the runner goroutines do not report on one channel made in Run", fname)
+						continue
+					}
+					resultChan = ev.V
+				}
+				sp := (st.Client >> shSpawn) & 7
+				if sp < 7 {
+					sp++
+				}
+				st.Client = st.Client&^(7<<shSpawn) | sp<<shSpawn
+			case *ssa.UnOp:
+				if v.Op == token.ARROW {
+					return onRecv(st, in, v.X, v.CommaOk)
+				}
+			case *ssa.Store:
+				if st.Client&bEAct != 0 && isE(st.Eval(v.Val)) && x.joinStore(v) {
+					st.Client |= bEApp | bAnyApp
+				}
+			}
+			return true
+		}
+		cl.OnReturn = func(st *xState, ret *ssa.Return, res []xVal) {
+			sp := int(st.Client>>shSpawn) & 7
+			if sp == 0 && st.Client&bOwn == 0 && !(st.Client&bLoaded != 0 && st.Client&bStored != 0) {
+				return // refused
+			}
+			verifyE(st, "return at "+x.pos(ret))
+			mask := int(st.Client>>shMask) & 15
+			want := (1 << uint(n)) - 1
+			if mask != want {
+				for i := 0; i < n; i++ {
+					if mask&(1<<uint(i)) == 0 {
+						x.bad("C12.K1-count", cCount, x.pos(ret), fmt.Sprintf("with %d runners Run can return at %s without having started runner %d", n, x.pos(ret), i))
+						break
+					}
+				}
+			}
+			rc := int(st.Client>>shRecv) & 7
+			if rc != sp {
+				x.bad("C12.K1-count", cCount, x.pos(ret), fmt.Sprintf("with %d runners Run can return at %s having started %d goroutines but received %d results: it returns while a runner is still running, and that goroutine blocks forever on its send", n, x.pos(ret), sp, rc))
+			}
+			if len(res) == 1 {
+				switch {
+				case isJoinCall(res[0]):
+				case res[0].K == xNil && (st.Client&bAnyApp == 0 || st.Client&bJoinNil != 0):
+				default:
+					x.bad("C12.K2-filter", cJoin, x.pos(ret), "the return at "+x.pos(ret)+" does not return the errors.Join of the collected results")
+				}
+			}
+		}
+		ex := newXplorer(p, x.ssaPkg, cl)
+		ex.Explore(fn, nil, 0)
+		if ex.Overflow {
+			x.undecide("%s: path exploration exceeded its budget (n=%d)", fname, n)
+		}
+	}
+	if !sawGo {
+		x.bad("C12.K0-once", cOnce, p.Pos(fn.Pos()), "Run no longer starts any goroutine: the runners are not run in parallel")
+		return
+	}
+	if !sawTAS && !loadStore {
+		x.bad("C12.K0-once", cOnce, p.Pos(fn.Pos()), "Run no longer takes ownership with an atomic test-and-set of the running flag (CompareAndSwap(false,true) / Swap(true)): a second Run would start every runner again")
+	}
+	if loadStore {
+		x.r.Note("%s guards with Load+Store instead of an atomic test-and-set: two Run calls racing each other can both start the runners (concurrent Run calls are not in the statement's quantifier; not armed)", fname)
+	}
+	if !anyRecv {
+		x.bad("C12.K1-count", cCount, p.Pos(fn.Pos()), "Run never receives the runners' results: it returns without waiting and every runner goroutine blocks on its send")
+	}
+	// per-worker obligations
+	for _, w := range cache {
+		if w == nil {
 			continue
 		}
-		spawns = append(spawns, w.Go)
-		var probs []string
-		probs = append(probs, res.Problems...)
-		if cancelRes == nil {
-			probs = append(probs, "Run no longer derives the runners' context with context.WithCancel: a returning runner cannot stop the others")
-		}
-		r.Check(len(probs) == 0, "C12.K1-worker", w.Name+" once/send/cancel", x.pos(w.Go),
-			"runner called once, one result sent after it, cancel called after it on every path", strings.Join(probs, "; "))
-
-		// ctx argument and element identity
-		why := ""
-		for _, t := range res.Tasks {
-			if len(t.Call.Args) < 1 || ctxRes == nil || !c12HasRoot(t.Call.Args[0], w.Bind, ctxRes) {
-				why = "the runner is invoked at " + x.pos(t) + " with a context that is not the one derived by context.WithCancel in Run: cancelling on the first return does not reach this runner"
-			}
-		}
-		r.Check(why == "", "C12.K1-worker", w.Name+" derived ctx", x.pos(w.Go), "runner receives the context whose cancel the goroutines call", why)
-
-		// each iteration runs its own element
-		why = ""
-		loops := c12Loops(fn)
-		l := c12LoopOf(loops, w.Go.Block())
-		for _, t := range res.Tasks {
-			ias, _ := c12ElemOfField(t.Call.Value, w.Bind, x.rmRunners)
-			for _, ia := range ias {
-				if l == nil || ia.Index != l.Idx {
-					why = "the runner invoked at " + x.pos(t) + " is not runners[i] for the spawn loop's own index: some runner is started twice and another never"
-				}
-			}
-		}
-		r.Check(why == "", "C12.K1-worker", w.Name+" own element", x.pos(w.Go), "goroutine i runs runners[i]", why)
-
-		// K2 stage 1
-		if len(res.Tasks) == 1 {
-			probs, ex, und := c12SenderFilter(x, w, res.Tasks[0], res.Sends)
-			if und != "" {
-				r.Undecide("%s: %s", w.Name, und)
-			} else {
-				if !ex {
-					s1Excludes = false
-				}
-				r.Check(len(probs) == 0, "C12.K2-filter", w.Name+" sends", x.pos(w.Go), "nil is sent only for nil or Canceled results", strings.Join(probs, "; "))
-			}
-		} else {
-			s1Excludes = false
-		}
+		x.reportRunnerWorker(w)
 	}
-	if len(spawns) == 0 {
+}
+
+func (x *c12) reportRunnerWorker(w *c12WorkerSum) {
+	pos := x.p.Pos(w.Fn.Pos())
+	if w.Unknown != "" {
+		x.undecide("%s: %s", w.Name, w.Unknown)
 		return
 	}
-
-	recvs, rok := c12Recvs(x, fn, isChRun)
-	if !rok {
-		r.Undecide("%s collects results through a select or comma-ok receive", fname)
+	if w.Tasks == 0 {
+		x.undecide("goroutine %s does not call an element of the runners", w.Name)
 		return
 	}
-	if len(recvs) == 0 {
-		r.Violation("C12.K1-count", fname+" started==collected", p.Pos(fn.Pos()), "Run never receives the runners' results: it returns without waiting and every runner goroutine blocks on its send")
-		return
+	base := FuncName(x.p, x.rmRun) + " runner goroutine"
+	c1 := base + " once/send/cancel"
+	x.seen("C12.K1-worker", c1, pos)
+	for m := range w.Problems {
+		x.bad("C12.K1-worker", c1, pos, w.Name+": "+m)
 	}
-	c12CheckCounts(x, fn, "C12.K1-count", fname+" started==collected", spawns, recvs)
-
-	// K2 stage 2
-	var allProbs []string
-	var joins []*ssa.Call
-	for _, rv := range recvs {
-		probs, js := c12Collector(x, fn, rv, true, !s1Excludes)
-		allProbs = append(allProbs, probs...)
-		joins = append(joins, js...)
+	c2 := base + " derived ctx"
+	x.seen("C12.K1-worker", c2, pos)
+	if len(w.CancelOf) == 0 {
+		x.bad("C12.K1-worker", c1, pos, "the goroutine never calls the cancel function of a context derived with context.WithCancel: a returning runner cannot stop the others")
 	}
-	r.Check(len(allProbs) == 0, "C12.K2-filter", fname+" collector", x.pos(recvs[0]),
-		"every non-nil collected result is appended to the slice given to errors.Join; Canceled is excluded", strings.Join(allProbs, "; "))
-	why := c12JoinReturned(x, fn, spawns, joins, FieldID{})
-	r.Check(why == "", "C12.K2-filter", fname+" returns Join", p.Pos(fn.Pos()), "Run returns errors.Join of the collected results", why)
+	okCtx := !w.CtxOther
+	for wc := range w.CancelOf {
+		if !w.CtxOf[wc] {
+			okCtx = false
+		}
+	}
+	if !okCtx || len(w.CtxOf) == 0 {
+		x.bad("C12.K1-worker", c2, pos, "the runner is invoked with a context that is not the one derived by the context.WithCancel whose cancel the goroutine calls: cancelling on the first return does not reach this runner")
+	}
+	c3 := base + " sends"
+	x.seen("C12.K2-filter", c3, pos)
+	for m := range w.Filter {
+		x.bad("C12.K2-filter", c3, pos, m)
+	}
+	_ = strings.Join
 }
